@@ -91,11 +91,11 @@ Definition verb_stats2 (accs : list s2acc) (fs gs : list bytes) (rs : list recor
   map (fun e => put_all (group_fields gs (fst (snd e)) ++ s2_emit accs ps (snd (snd e))) []) (stats2_groups ps gs rs).
 
 (* -s: every contributing record is emitted with the statistics so far of the pairs it carries (populateRecord is called
-   for a pair only when the record has both values); records lacking a group-by field are dropped *)
+   for a pair only when the record has both values); records lacking a group-by field pass through unchanged *)
 Definition stats2s_step (accs : list s2acc) (ps : list (bytes * bytes)) (gs : list bytes)
            (st : omap (omap s2st) * list orec) (r : record) : omap (omap s2st) * list orec :=
   match group_key gs r with
-  | None => st
+  | None => (fst st, snd st ++ [otext_rec r])       (* ingest does nothing; Transform still emits the record *)
   | Some k =>
       let m := match oget k (fst st) with Some m => m | None => [] end in
       let '(m', o') :=
